@@ -442,7 +442,8 @@ def check(prop, tier, seed, replay):
         raise ToolError(f"unknown tier {tier}")
     T = TIERS[tier]
     t0 = time.time()
-    bin_path = os.path.join(vlib.build_harness(["tunnel"], crate=vlib.HARNESS_APP), "tunnel")
+    # VERIF_TUNNEL_BIN: a driver built elsewhere (evaluation of source mutants on a scratch copy of the repository)
+    bin_path = os.environ.get("VERIF_TUNNEL_BIN") or os.path.join(vlib.build_harness(["tunnel"], crate=vlib.HARNESS_APP), "tunnel")
     work = tempfile.mkdtemp(prefix=f"{prop}_", dir=vlib.WORK)
     try:
         mc_runs, neg, cov_need = [], None, {}
